@@ -241,7 +241,7 @@ func cmdCheck(args []string) int {
 		fmt.Println(err)
 		return 2
 	}
-	tc := tierCfg{budget: 150 * time.Second, qt: 15 * time.Second, solvers: []SolverKind{Z3, CVC5, CVC5Int, Z3New}, cross: 0}
+	tc := tierCfg{budget: 6 * time.Minute, qt: 20 * time.Second, solvers: []SolverKind{Z3, CVC5, CVC5Int, Z3New}, cross: 0}
 	if *tier == "thorough" {
 		tc = tierCfg{budget: 20 * time.Minute, qt: 60 * time.Second, solvers: []SolverKind{Z3, CVC5, CVC5Int, Z3New}, cross: 7}
 	}
